@@ -235,7 +235,7 @@ def model_checks(ctx):
 
     def guard(g):
         cfg, inv = g
-        r = vlib.tlc("MCRandom", cfg, workers=2, timeout=1500, tag="MCRandom_" + cfg, xmx="2g")
+        r = vlib.tlc("MCRandom", cfg, workers=2, timeout=1500, tag="MCRandom_" + cfg, xmx="2g", expect=inv)
         hit = inv in r.invariant_violated or (inv == "LawCursorMonotone" and r.property_violated)
         if not hit:
             raise vlib.Infra("vacuity guard: %s did not violate %s" % (cfg, inv))
@@ -244,7 +244,7 @@ def model_checks(ctx):
 
     def sguard(g):
         cfg, inv = g
-        r = vlib.tlc("MCRandomState", cfg, workers=2, timeout=1500, tag="MCRandomState_" + cfg, xmx="1500m")
+        r = vlib.tlc("MCRandomState", cfg, workers=2, timeout=1500, tag="MCRandomState_" + cfg, xmx="1500m", expect=inv)
         if inv not in r.invariant_violated and not (inv == "LawCopyKeeps" and r.property_violated):
             raise vlib.Infra("vacuity guard: %s did not violate %s" % (cfg, inv))
         return {"cfg": cfg, "violates": inv}
